@@ -130,6 +130,24 @@ pub fn gen_plan(seed: u64, mixed_kinds: bool) -> GatherPlan {
         }
         metrics.push(spec);
     }
+    // focused churn plans: one vector with a single child (plus at most one other collector), so that
+    // "the last child is removed while a new one is created" meets its schedule often
+    let focus = !mixed_kinds && r.chance(12);
+    if focus {
+        let mut v: Vec<MetricSpec> = metrics.iter().filter(|m| m.kind.is_vec()).take(1).cloned().collect();
+        if v.is_empty() {
+            v.push(MetricSpec { kind: MK::CounterVec, name: "zeta".into(), help: "help 0".into(), consts: vec![], vars: vec!["l".into()], children: vec![], special: None });
+        }
+        v[0].children.truncate(1);
+        if v[0].children.is_empty() {
+            let vals = v[0].vars.iter().map(|_| "a".to_string()).collect();
+            v[0].children.push((vals, 5));
+        }
+        if let Some(o) = metrics.iter().find(|m| !m.kind.is_vec() && m.name != v[0].name) {
+            v.push(o.clone());
+        }
+        metrics = v;
+    }
     let k = 4;
     let mut orders = vec![];
     let mut hash_seeds = vec![];
@@ -159,7 +177,7 @@ pub fn gen_plan(seed: u64, mixed_kinds: bool) -> GatherPlan {
             prelude.push(t);
         }
     }
-    GatherPlan { env, prefix, common, metrics, orders, hash_seeds, concurrent_gather: r.chance(30), prelude }
+    GatherPlan { env, prefix, common, metrics, orders, hash_seeds, concurrent_gather: focus || r.chance(30), prelude }
 }
 
 fn hist_model(v: u32) -> compat::PHist {
@@ -326,6 +344,9 @@ pub struct Replica {
     pub typed: String,
     pub text: String,
     pub concurrent: Option<Vec<PFamily>>,
+    /// gather() of this replica's registry after every thread has finished (replica 0 of a
+    /// concurrent run: its original vector children were removed while new ones were created)
+    pub final_gather: Option<Vec<PFamily>>,
     pub errors: Vec<String>,
 }
 
@@ -334,11 +355,24 @@ pub fn run_replicas(plan: &GatherPlan, mode: Mode) -> (crate::engine::RunResult,
     let sim = new_sim(&plan.env, mode);
     let outp: Arc<Mutex<Vec<Option<Replica>>>> = Arc::new(Mutex::new(vec![None; plan.orders.len()]));
     let keep = Keep::new();
+    let reg0: Arc<Mutex<Option<Registry>>> = Arc::new(Mutex::new(None));
+    let final0: Arc<Mutex<Option<Vec<PFamily>>>> = Arc::new(Mutex::new(None));
+    if plan.concurrent_gather {
+        let reg0 = reg0.clone();
+        let final0 = final0.clone();
+        spawn_final(&sim, move |_| {
+            let r = reg0.lock().unwrap().clone();
+            if let Some(r) = r {
+                *final0.lock().unwrap() = Some(compat::families_of(&r.gather()));
+            }
+        });
+    }
     for (k, order) in plan.orders.iter().enumerate() {
         let plan = plan.clone();
         let order = order.clone();
         let outp = outp.clone();
         let keep = keep.clone();
+        let reg0 = reg0.clone();
         let hs = plan.hash_seeds[k];
         sim.spawn(&format!("replica{}", k), false, move |ctx| {
             set_hash_seed(hs);
@@ -356,6 +390,7 @@ pub fn run_replicas(plan: &GatherPlan, mode: Mode) -> (crate::engine::RunResult,
                 }
             };
             let mut built = vec![];
+            let mut n_prelude_built = 0usize;
             for p in &plan.prelude {
                 if let Ok(b) = build_metric(p) {
                     if register(&reg, &b).is_ok() {
@@ -365,6 +400,7 @@ pub fn run_replicas(plan: &GatherPlan, mode: Mode) -> (crate::engine::RunResult,
                         }
                     }
                     built.push(b);
+                    n_prelude_built += 1;
                 }
             }
             for &i in &order {
@@ -386,7 +422,8 @@ pub fn run_replicas(plan: &GatherPlan, mode: Mode) -> (crate::engine::RunResult,
             // updates new children of the replica's vectors (structure of the result is checked)
             let concurrent = if plan.concurrent_gather && k == 0 {
                 let mut vecs: Vec<Built> = vec![];
-                for b in &built {
+                // only the content proper (objects of the prelude are not registered any more)
+                for b in &built[n_prelude_built..] {
                     match b {
                         Built::CV(v) => vecs.push(Built::CV(v.clone())),
                         Built::IGV(v) => vecs.push(Built::IGV(v.clone())),
@@ -395,6 +432,31 @@ pub fn run_replicas(plan: &GatherPlan, mode: Mode) -> (crate::engine::RunResult,
                     }
                 }
                 let nvars: Vec<usize> = order.iter().filter(|&&i| plan.metrics[i].kind.is_vec()).map(|&i| plan.metrics[i].vars.len()).collect();
+                *reg0.lock().unwrap() = Some(reg.clone());
+                // a second thread removes every ORIGINAL child of every vector meanwhile
+                let originals: Vec<Vec<Vec<String>>> = order.iter().filter(|&&i| plan.metrics[i].kind.is_vec()).map(|&i| plan.metrics[i].children.iter().map(|c| c.0.clone()).collect()).collect();
+                let mut vecs2: Vec<Built> = vec![];
+                for b in &vecs {
+                    match b {
+                        Built::CV(v) => vecs2.push(Built::CV(v.clone())),
+                        Built::IGV(v) => vecs2.push(Built::IGV(v.clone())),
+                        Built::HV(v) => vecs2.push(Built::HV(v.clone())),
+                        _ => {}
+                    }
+                }
+                ctx.spawn("remover", move |_c| {
+                    for (j, b) in vecs2.iter().enumerate() {
+                        for vals in &originals[j] {
+                            let vs: Vec<&str> = vals.iter().map(|s| s.as_str()).collect();
+                            let _ = match b {
+                                Built::CV(v) => v.remove_label_values(&vs),
+                                Built::IGV(v) => v.remove_label_values(&vs),
+                                Built::HV(v) => v.remove_label_values(&vs),
+                                _ => Ok(()),
+                            };
+                        }
+                    }
+                });
                 ctx.spawn("mutator", move |_c| {
                     for (j, b) in vecs.iter().enumerate() {
                         for extra in ["zz_new1", "zz_new3", "zz_new2"] {
@@ -425,14 +487,17 @@ pub fn run_replicas(plan: &GatherPlan, mode: Mode) -> (crate::engine::RunResult,
                 None
             };
             ctx.ret(op_id(k, 0));
-            outp.lock().unwrap()[k] = Some(Replica { fams, typed, text, concurrent, errors });
+            outp.lock().unwrap()[k] = Some(Replica { fams, typed, text, concurrent, final_gather: None, errors });
             keep.push(built);
             keep.push(reg);
         });
     }
     let res = sim.run();
     drop(keep);
-    let o = outp.lock().unwrap().clone();
+    let mut o = outp.lock().unwrap().clone();
+    if let Some(Some(r0)) = o.get_mut(0) {
+        r0.final_gather = final0.lock().unwrap().clone();
+    }
     (res, o)
 }
 
@@ -534,21 +599,54 @@ fn execute_c07(plan: &GatherPlan, mode: Mode) -> RunOut {
                         out.violations.push(Violation::new("C07/order", "C07/sample-order", format!("replica {} (concurrent gather): samples of {:?} are not strictly ordered by label values: {:?} then {:?}", k, f.name, w[0], w[1])));
                     }
                 }
-                // everything that existed before the concurrent phase is still there, unchanged
-                if let Some(wf) = want.iter().find(|wf| wf.name == f.name) {
-                    for wm in &wf.metrics {
-                        if !f.metrics.iter().any(|m| m == wm) {
-                            out.violations.push(Violation::new("C07/complete", "C07/complete", format!("replica {} (concurrent gather): sample {:?} of {:?} is missing or changed while other children were created", k, wm.labels, f.name)));
-                        }
-                    }
-                }
             }
-            for wf in &want {
-                if !c.iter().any(|f| f.name == wf.name) {
-                    out.violations.push(Violation::new("C07/complete", "C07/complete", format!("replica {} (concurrent gather): family {:?} disappeared", k, wf.name)));
+            // samples of collectors that nobody touches (non-vector metrics) are still there, unchanged
+            for m in plan.metrics.iter().filter(|m| !m.kind.is_vec()) {
+                let name = match &plan.prefix {
+                    Some(p) => format!("{}_{}", p, m.name),
+                    None => m.name.clone(),
+                };
+                let wm = want.iter().filter(|w| w.name.as_deref() == Some(name.as_str())).flat_map(|w| w.metrics.iter()).find(|wm| m.consts.iter().all(|c| wm.labels.contains(c)));
+                let found = c.iter().filter(|f| f.name.as_deref() == Some(name.as_str())).filter_map(|f| strip_common(plan, f).ok()).any(|f| wm.map(|wm| f.metrics.iter().any(|x| x == wm)).unwrap_or(true));
+                if !found {
+                    out.violations.push(Violation::new("C07/complete", "C07/complete", format!("replica {} (concurrent gather): the sample of untouched collector {:?}{:?} is missing or changed", k, name, m.consts)));
                 }
             }
         }
+    }
+    // replica 0 of a concurrent run, at quiescence: every original vector child was removed while
+    // three new ones were created; the registry must expose exactly the new ones
+    if let Some(Some(fin)) = reps.first().map(|r| r.final_gather.clone()) {
+        let mut p2 = plan.clone();
+        for m in p2.metrics.iter_mut() {
+            if m.kind.is_vec() {
+                m.children = ["zz_new1", "zz_new3", "zz_new2"].iter().map(|x| (m.vars.iter().map(|_| x.to_string()).collect(), 1u32)).collect();
+            }
+        }
+        let want2 = model_gather(&p2);
+        let mut stripped = vec![];
+        let mut ok = true;
+        for f in &fin {
+            match strip_common(plan, f) {
+                Ok(s) => stripped.push(s),
+                Err(_) => ok = false,
+            }
+        }
+        if ok && stripped != want2 {
+            let mut msg = format!("{} families, expected {}", stripped.len(), want2.len());
+            for (a, b) in stripped.iter().zip(want2.iter()) {
+                if a != b {
+                    msg = format!("family {:?} holds samples {:?}, expected {:?}", a.name, a.metrics.iter().map(|m| &m.labels).collect::<Vec<_>>(), b.metrics.iter().map(|m| &m.labels).collect::<Vec<_>>());
+                    break;
+                }
+            }
+            if stripped.len() < want2.len() {
+                let missing: Vec<_> = want2.iter().filter(|w| !stripped.iter().any(|s| s.name == w.name)).map(|w| w.name.clone()).collect();
+                msg = format!("families {:?} are missing although their collectors hold samples", missing);
+            }
+            out.violations.push(Violation::new("C07/complete", "C07/complete-after-churn", format!("replica 0, after its vectors' original children were removed while new ones were created concurrently: gather() at quiescence differs from the model: {}", msg)));
+        }
+        out.probes.push(("quiescent_gather_after_churn", 1));
     }
     // determinism across hash seeds / registration orders
     if let Some(first) = reps.first() {
